@@ -20,7 +20,7 @@ use lightning_signer::persist::Persist;
 use lightning_signer::policy::simple_validator::{make_default_simple_policy, SimpleValidatorFactory};
 use lightning_signer::signer::derive::KeyDerivationStyle;
 use lightning_signer::util::clock::StandardClock;
-use lightning_signer::util::test_utils::key::make_test_pubkey;
+use lightning_signer::util::test_utils::key::{make_test_counterparty_points, make_test_pubkey};
 use lightning_signer::util::test_utils::*;
 use std::panic::{catch_unwind, AssertUnwindSafe};
 use std::sync::Arc;
@@ -50,6 +50,15 @@ fn services(persister: Arc<dyn Persist>) -> NodeServices {
         trusted_oracle_pubkeys: vec![],
     }
 }
+
+/// foreign scripts of the wire-setup cases: X = the upfront shutdown script the holder fixes, Y = another
+/// allowlisted script, R = the counterparty's upfront script
+fn foreign_script(tag: u8) -> ScriptBuf {
+    ScriptBuf::new_p2wpkh(&lightning_signer::bitcoin::WPubkeyHash::from_byte_array([tag; 20]))
+}
+const X: u8 = 0x11;
+const Y: u8 = 0x12;
+const R: u8 = 0x13;
 
 struct W {
     persister: Arc<dyn Persist>,
@@ -94,6 +103,65 @@ impl W {
         })
         .expect("hold 0");
         W { persister, seed, node, channel_id, outbound, value }
+    }
+
+    /// channel set up through the WIRE (`SetupChannel` encoded, decoded, handled by a real `ChannelHandler`),
+    /// with or without an upfront shutdown script on either side; then commitment 0 on both sides
+    fn open_wire(local: bool, remote: bool) -> Result<W, String> {
+        let persister: Arc<dyn Persist> = Arc::new(KVVPersister(MemoryKVVStore::new([5u8; 16]), JsonFormat));
+        let seed = [7u8; 32];
+        let cfg = config();
+        let node = Arc::new(Node::new(cfg, &seed, vec![], services(persister.clone())));
+        persister.new_node(&node.get_id(), &cfg, &*node.get_state()).unwrap();
+        persister.new_tracker(&node.get_id(), &node.get_tracker()).unwrap();
+        let addr = |t: u8| lightning_signer::bitcoin::Address::from_script(&foreign_script(t), Network::Testnet).unwrap().to_string();
+        node.add_allowlist(&[addr(X), addr(Y)]).unwrap();
+        let (channel_id, _) = node.new_channel(DBID, &PEER, &node).expect("new_channel");
+        let value = 3_000_000u64;
+        let mut w = W { persister, seed, node: node.clone(), channel_id: channel_id.clone(), outbound: true, value };
+        let cp = make_test_counterparty_points();
+        let pk = |k: &lightning_signer::bitcoin::secp256k1::PublicKey| PubKey(k.serialize());
+        let m = msgs::SetupChannel {
+            is_outbound: true,
+            channel_value: value,
+            push_value: 0,
+            funding_txid: lightning_signer::bitcoin::Txid::from_slice(&[2u8; 32]).unwrap(),
+            funding_txout: 0,
+            to_self_delay: 6,
+            local_shutdown_script: Octets(if local { foreign_script(X).to_bytes() } else { vec![] }),
+            local_shutdown_wallet_index: None,
+            remote_basepoints: vls_protocol::model::Basepoints {
+                revocation: pk(&cp.revocation_basepoint.0),
+                payment: pk(&cp.payment_point),
+                htlc: pk(&cp.htlc_basepoint.0),
+                delayed_payment: pk(&cp.delayed_payment_basepoint.0),
+            },
+            remote_funding_pubkey: pk(&cp.funding_pubkey),
+            remote_to_self_delay: 7,
+            remote_shutdown_script: Octets(if remote { foreign_script(R).to_bytes() } else { vec![] }),
+            channel_type: Octets(vls_protocol_signer::util::commitment_type_to_channel_type(lightning_signer::channel::CommitmentType::StaticRemoteKey)),
+        };
+        let r = w.send(&m);
+        if r != "ok" {
+            return Err(format!("SetupChannel over the wire answered {}", r));
+        }
+        // commitment 0 on both sides by direct requests, with the setup the signer stored
+        let setup = node.with_channel(&channel_id, |c| Ok(c.setup.clone())).map_err(|e| e.message().to_string())?;
+        let node_ctx = TestNodeContext { node: node.clone(), secp_ctx: Secp256k1::signing_only() };
+        let cp_keys = make_test_counterparty_keys(&node_ctx, &channel_id, value);
+        let chan_ctx = TestChannelContext { channel_id: channel_id.clone(), setup, counterparty_keys: cp_keys };
+        let (th, tc) = (value - 1000, 0);
+        node.with_channel(&channel_id, |c| c.sign_counterparty_commitment_tx_phase2(&make_test_pubkey(0x20), 0, 0, th, tc, vec![], vec![]))
+            .map_err(|e| e.message().to_string())?;
+        let mut ctx = channel_commitment(&node_ctx, &chan_ctx, 0, 0, th, tc, vec![], vec![]);
+        let (csig, hsigs) = counterparty_sign_holder_commitment(&node_ctx, &chan_ctx, &mut ctx);
+        node.with_channel(&channel_id, |c| {
+            c.validate_holder_commitment_tx_phase2(0, 0, th, tc, vec![], vec![], &csig, &hsigs)?;
+            c.revoke_previous_holder_commitment(0)
+        })
+        .map_err(|e| e.message().to_string())?;
+        w.outbound = true;
+        Ok(w)
     }
 
     fn handler(&self) -> ChannelHandler {
@@ -164,6 +232,13 @@ impl Group for C07Wire {
             v(&["w_open 1", "w_close_empty", "w_probe", "w_restart", "w_close_ok", "w_restart_keep"]),
             v(&["w_open 0", "w_close_empty", "w_restart", "w_close_ok", "w_restart_keep"]),
             v(&["w_open 1", "w_cp_overvalue", "w_probe", "w_restart", "w_cp_ok", "w_close_ok"]),
+            // SetupChannel over the wire, all four combinations of (holder, counterparty) upfront shutdown script;
+            // the oracle is the script sent on the wire: with a holder upfront script X every close paying the
+            // holder elsewhere (wallet W, allowlisted Y) must be refused through both entry points, X is signed
+            v(&["w_setup_wire 1 0", "w_close2_to w", "w_close2_to y", "w_close1_to y", "w_close1_to x", "w_close2_to x"]),
+            v(&["w_setup_wire 1 1", "w_close2_to y", "w_close1_to y", "w_close2_to w", "w_close2_to x"]),
+            v(&["w_setup_wire 0 1", "w_close2_to w", "w_close1_to y", "w_close2_to x"]),
+            v(&["w_setup_wire 0 0", "w_close1_to x", "w_close2_to y", "w_close2_to w"]),
         ]
     }
     fn gen_case(&self, _rng: &mut Rng, _tier: Tier) -> Vec<String> {
@@ -174,6 +249,7 @@ impl Group for C07Wire {
         let mut w: Option<W> = None;
         let mut before = String::new();
         let (mut panicked, mut restarted, mut answered) = (false, false, false);
+        let mut upfront_sent = false;
         for (i, op) in ops.iter().enumerate() {
             let t: Vec<&str> = op.split_whitespace().collect();
             let line = match t[0] {
@@ -181,7 +257,81 @@ impl Group for C07Wire {
                     w = Some(W::open(t.get(1) == Some(&"1")));
                     "ok".to_string()
                 }
+                "w_setup_wire" => {
+                    let (l, r) = (t.get(1) == Some(&"1"), t.get(2) == Some(&"1"));
+                    match catch_unwind(AssertUnwindSafe(|| W::open_wire(l, r))) {
+                        Ok(Ok(wd)) => {
+                            // what the signer stored must be what was sent
+                            let (hs, cs) = wd.node.with_channel(&wd.channel_id, |c| Ok((c.setup.holder_shutdown_script.clone(), c.setup.counterparty_shutdown_script.clone()))).unwrap();
+                            let want_h = if l { Some(foreign_script(X)) } else { None };
+                            let want_c = if r { Some(foreign_script(R)) } else { None };
+                            if hs != want_h || cs != want_c {
+                                co.violations.push(Violation {
+                                    kind: "wire-setup-upfront-script-lost".into(),
+                                    desc: format!("SetupChannel sent holder upfront script {:?} / counterparty {:?}, the channel stores {:?} / {:?}", want_h.map(|s| s.to_hex_string()), want_c.map(|s| s.to_hex_string()), hs.map(|s| s.to_hex_string()), cs.map(|s| s.to_hex_string())),
+                                    at: i,
+                                });
+                            }
+                            upfront_sent = l;
+                            w = Some(wd);
+                            panicked = true; restarted = true; // (non-triviality of these cases is decided by the closes below)
+                            "ok".to_string()
+                        }
+                        Ok(Err(e)) => format!("setup-failed {}", e),
+                        Err(_) => "setup-panic".to_string(),
+                    }
+                }
                 _ if w.is_none() => "bad-op".to_string(),
+                "w_close2_to" | "w_close1_to" => {
+                    let wd = w.as_ref().unwrap();
+                    let which = t.get(1).copied().unwrap_or("w");
+                    let script = match which {
+                        "x" => foreign_script(X),
+                        "y" => foreign_script(Y),
+                        _ => make_test_funding_wallet_addr(&wd.node, 3, lightning_signer::node::SpendType::P2wpkh).script_pubkey(),
+                    };
+                    let hv = wd.value - 2000;
+                    let r = if t[0] == "w_close2_to" {
+                        let m = msgs::SignMutualCloseTx2 {
+                            to_local_value_sat: hv,
+                            to_remote_value_sat: 0,
+                            local_script: Octets(script.to_bytes()),
+                            remote_script: Octets(vec![]),
+                            local_wallet_path_hint: ArrayBE(if which == "w" { vec![3] } else { vec![] }),
+                        };
+                        wd.send(&m)
+                    } else {
+                        let funding = wd.node.with_channel(&wd.channel_id, |c| Ok(c.setup.funding_outpoint)).unwrap();
+                        let tx = Transaction {
+                            version: Version::TWO,
+                            lock_time: LockTime::ZERO,
+                            input: vec![TxIn { previous_output: funding, script_sig: ScriptBuf::new(), sequence: Sequence::MAX, witness: Witness::new() }],
+                            output: vec![lightning_signer::bitcoin::TxOut { value: lightning_signer::bitcoin::Amount::from_sat(hv), script_pubkey: script.clone() }],
+                        };
+                        match Psbt::from_unsigned_tx(tx.clone()) {
+                            Ok(psbt) => wd.send(&msgs::SignMutualCloseTx { tx: WithSize(tx), psbt: WithSize(psbt.into()), remote_funding_key: PubKey(make_test_pubkey(104).serialize()) }),
+                            Err(e) => format!("psbt-refused {:?}", e),
+                        }
+                    };
+                    // oracle: the upfront script that went over the wire
+                    let expect_ok = !upfront_sent || which == "x";
+                    answered = true;
+                    if r == "ok" && !expect_ok {
+                        co.violations.push(Violation {
+                            kind: "close-ignores-upfront-script".into(),
+                            desc: format!("the holder fixed upfront shutdown script X in SetupChannel; {} paying the holder to {} was signed", t[0], which),
+                            at: i,
+                        });
+                    } else if r != "ok" && expect_ok {
+                        co.violations.push(Violation {
+                            kind: "wire-unexpected-answer".into(),
+                            desc: format!("{} paying the holder to {} answered {} (expected ok; upfront script sent: {})", t[0], which, r, upfront_sent),
+                            at: i,
+                        });
+                    }
+                    co.tags.insert(format!("wire:close-to-{}:{}:upfront={}", which, r, upfront_sent as u8));
+                    r
+                }
                 "w_close_empty" => {
                     let wd = w.as_ref().unwrap();
                     before = state_view(&wd.node, &wd.channel_id);
